@@ -142,6 +142,31 @@ def oracle(alg, ctx, desc, triples=True):
                 return
 
 
+def aliasing_pass(ctx):
+    """the algebra keeps its own signature: later changes of the object the caller passed (a list, an ndarray that is edited in
+    place) change neither `alg.signature` nor any sign computed afterwards (d = 3 with a precomputed table, d = 7 with the lazily
+    filled one)"""
+    import numpy as np
+    from kingdon import Algebra
+    for d, container in ((3, 'list'), (3, 'ndarray'), (7, 'ndarray'), (7, 'list')):
+        sig0 = [1, -1, 1, 1, -1, 0, 1][:d]
+        buf = np.array(sig0) if container == 'ndarray' else list(sig0)
+        alg = Algebra(signature=buf)
+        early = {(1 << j): int(alg.signs[1 << j, 1 << j]) for j in range(0, d, 2)}
+        for j in range(d):                      # the caller re-uses its buffer
+            buf[j] = -buf[j] if buf[j] else 1
+        case = {'d': d, 'signature': sig0, 'passed_as': container}
+        ctx.case(case, tag='signature-aliasing')
+        if [int(v) for v in alg.signature] != sig0:
+            ctx.violation('signature-aliased', case, sig0, [int(v) for v in alg.signature], key=f'relations:signature-aliased:{container}')
+            continue
+        late = {(1 << j): int(alg.signs[1 << j, 1 << j]) for j in range(d)}
+        bad = {j: late[1 << j] for j in range(d) if late[1 << j] != sig0[j]}
+        if bad or any(early[k] != late[k] for k in early):
+            ctx.violation('generator-square', {**case, 'after': 'the caller modified its signature object'}, sig0, [late[1 << j] for j in range(d)],
+                          key='relations:signature-aliased:squares')
+
+
 def graded_pass(ctx):
     """graded mode: every basis blade is the unit coefficient on its own key (inside its complete grade), a blade named
     e_ij..k is the ordered product of its generators, blade products follow the table"""
@@ -319,6 +344,7 @@ def run(ctx):
                 if S[2 ** j, 2 ** k] != -S[2 ** k, 2 ** j] or S[2 ** j, 2 ** k] == 0:
                     ctx.violation('anticommute', {'sig': sig, 'gens': [j, k]}, None, None, key='relations')
     graded_pass(ctx)
+    aliasing_pass(ctx)
     out = ctx.drive(lines)
     if out is not None:
         nbad = 0
